@@ -91,4 +91,27 @@ theorem C05_cancel_requires_open_order (e : Env) (s s' : State) (c p : Addr) (oi
         unfold saoCancelBody at h
         simp [hc, throw, throwThe, MonadExceptOf.throw, bind, Except.bind] at h
 
+/-- the last step of Cancel and of the timeout give-up: the order is refunded (`C05_refund_full`: in full, to the payer), the
+    model rolled back, and the order record removed — in that order, and the order is gone afterwards -/
+theorem C05_cancel_order_refunds_then_removes (e : Env) (s s' : State) (id : Nat) (h : cancelOrder e s id = .ok (s', none)) :
+    ∃ s1 s2, refundOrder e s id = (s1, none) ∧ rollbackMeta s1 ((s.getOrder id).getD default).dataId = .ok s2 ∧
+      s' = s2.removeOrder id ∧ s'.getOrder id = none := by
+  unfold cancelOrder at h
+  simp only [bind, Except.bind, pure, Except.pure] at h
+  split at h
+  · simp at h
+  · rename_i s1 hs1
+    split at h
+    · cases h
+    · rename_i s2 hs2
+      simp only [Except.ok.injEq, Prod.mk.injEq, and_true] at h
+      refine ⟨s1, s2, hs1, hs2, h.symm, ?_⟩
+      rw [← h]
+      unfold State.getOrder State.removeOrder
+      simp only
+      apply List.find?_eq_none.mpr
+      intro x hx
+      have := (List.mem_filter.mp hx).2
+      simpa using this
+
 end SaoVerif
